@@ -8,7 +8,7 @@ from vlib.workers import ALL, WorkerDied, WorkerSet
 PROPERTY = "C11"
 LEVEL = "exploration"
 RULE = ("Wrapper chains of length 1..7 over synthetic manager objects (unwrap_context hook returning None / the next manager / "
-        "PRUNE / itself / the head of the chain; elaborate_context hook setting any subset of description, children, "
+        "PRUNE / itself / the head of the chain; falsy (empty-container-like) managers included; elaborate_context hook setting any subset of description, children, "
         "inner_stack, or replacing context.obj by another manager of the chain) and generator-based managers made by three "
         "@contextmanager functions (with an unwrap_context_generator hook returning None / next / PRUNE, without a hook, and one "
         "delegating with `yield from`); is_exiting on or off; each case run three ways - fill_context(Context(...)) outside any "
@@ -30,6 +30,7 @@ def cases():
         "unwrap": st.sampled_from(["next", "next", "next", "none", "prune", "self", "back"]),
         "elab": st.lists(st.sampled_from(["desc", "children", "inner"]), unique=True, max_size=3),
         "objto": st.sampled_from([None, None, None, None, 0, 1, 2, 3, 4]),
+        "falsy": st.sampled_from([False, False, False, True]),
     })
     gcm = st.fixed_dictionaries({
         "t": st.just("gcm"), "fn": st.sampled_from(["a", "a", "b", "c"]),
@@ -148,6 +149,8 @@ def check_case(ws, interps, case, out):
         classes.add("generator_hook_called")
     if any(L["t"] == "mg" and L.get("objto") is not None for L in case["links"]):
         classes.add("elaborate_replaces_obj")
+    if any(L["t"] == "mg" and L.get("falsy") for L in case["links"][1:]):
+        classes.add("falsy_inner_manager")
     out.note_case(case, info["unwraps"] >= 2 or info["prune"] or info["gcm"], classes=sorted(classes), n_eval=3 * len(interps))
     return viols
 
